@@ -116,6 +116,73 @@ theorem C07_unfaithful_store_witness :
   revert h
   decide
 
+/-- `flushkv.New(view)` of the earlier model is the wrapper over the plain layer. -/
+theorem flushLayer_eq_wrap (b : Bool) (d : Disk) (v : Nat) :
+    (flushLayer b).set d v = (flushWrap b plainLayer).set d v ∧ (flushLayer b).get d = (flushWrap b plainLayer).get d := by
+  cases hc : d.closed <;> simp [flushLayer, flushWrap, plainLayer, hc]
+
+theorem faithful_debug (c : DebugCfg) (L : Layer σ) (hF : Faithful L) : Faithful (debugLayer true c L) := by
+  constructor
+  · intro s v h; simp only [debugLayer, Bool.or_true, if_true] at h ⊢; exact hF.set_ack s v h
+  · intro s v h; simp only [debugLayer, Bool.or_true, if_true] at h ⊢; exact hF.set_nak s v h
+  · intro s v h; exact hF.get_sound s v h
+  · intro s; exact hF.get_disk s
+  · intro e s; exact hF.env_disk e s
+
+theorem faithful_flush (L : Layer σ) (hF : Faithful L) : Faithful (flushWrap false L) := by
+  constructor
+  · intro s v h
+    have := hF.set_ack s v
+    simp only [flushWrap] at h ⊢
+    cases hs : L.set s v with
+    | mk s' b => cases b <;> simp_all
+  · intro s v h
+    have := hF.set_nak s v
+    simp only [flushWrap] at h ⊢
+    cases hs : L.set s v with
+    | mk s' b => cases b <;> simp_all
+  · intro s v h; exact hF.get_sound s v h
+  · intro s; exact hF.get_disk s
+  · intro e s; exact hF.env_disk e s
+
+/-- **Every wrapper stack of the module is faithful if what it wraps is**: any nesting of `debug.New` in any
+configuration (no callback, a callback with any command filter), `flushkv.New` and realm views made through them. -/
+theorem C07_store_contract_stack (ws : List Wrapper) (L : Layer σ) (hF : Faithful L) : Faithful (stackLayer ws L) := by
+  induction ws with
+  | nil => exact hF
+  | cons w ws ih =>
+    cases w with
+    | debug c => exact faithful_debug c _ ih
+    | flush => exact faithful_flush _ ih
+    | realm => exact ih
+
+/-- …so over every stack on top of a `mapdb` view C07 holds: no number twice, waste bounded (the two theorems above
+apply with `L := stackLayer ws plainLayer`). -/
+theorem C07_no_reuse_over_every_stack (ws : List Wrapper) (ops : List LOp) (hw : ∀ op ∈ ops, op.wf) :
+    (nums (lrun (stackLayer ws plainLayer) (linit ⟨none, false⟩) ops).2).Pairwise (· < ·) := by
+  refine C07_no_reuse_over_faithful_store _ (C07_store_contract_stack ws _ C07_store_contract_plain) _ ?_ ops hw
+  induction ws with
+  | nil => rfl
+  | cons w ws ih => cases w <;> exact ih
+
+/-- **A debug store must forward what it does not report** (seeded change C07-r6-3): a `debug.New(store, nil)` — or one
+whose filter leaves `SetCommand` out — that answers nil without forwarding the write is not faithful, and then, with no
+crash and no fault at all, the second lease renewal reads a database that never received the first: `0` is handed out
+twice inside one object, and again after every restart.  The debug store as it is hands out 0, 1, 2, 3. -/
+theorem C07_silent_debug_store_witness :
+    ¬ Faithful (debugLayer false ⟨false, true, true⟩ plainLayer) ∧
+    (lrun (debugLayer false ⟨true, false, true⟩ plainLayer) (linit ⟨none, false⟩)
+      [.new 1, .next none, .next none, .crash .idle, .new 2, .next none]).2
+      = [.ok, .num 0, .num 0, .crashed, .ok, .num 0] ∧
+    (lrun (stackLayer [.debug ⟨true, false, true⟩, .flush, .realm, .debug ⟨false, true, true⟩] plainLayer) (linit ⟨none, false⟩)
+      [.new 1, .next none, .next none, .crash .idle, .new 2, .next none, .next none]).2
+      = [.ok, .num 0, .num 1, .crashed, .ok, .num 2, .num 3] := by
+  refine ⟨?_, by decide, by decide⟩
+  intro hF
+  have h := hF.set_ack ⟨none, false⟩ 7 (by decide)
+  revert h
+  decide
+
 /-- The hypotheses of the theorems above are satisfiable: an empty open database under the plain layer. -/
 example : plainLayer.disk ⟨none, false⟩ = none ∧ (∀ op ∈ [LOp.new 3, .next (some .close), .crash .nextWrite], op.wf) := by
   refine ⟨rfl, ?_⟩
